@@ -450,10 +450,10 @@ def voronoi_update_contract():
     fc.assign_self = lambda I, F, old: {'n_selected_': conc(z3.simplify(tz(old['$heap'][F['self'].id].attrs['n_selected_']) + 1))}
     return fc
 
-def u_voronoi_update(with_y=False):
+def u_voronoi_update(with_y=False, thr=None):
     """the real VoronoiFPS._update_post_selection (with _get_active and the base-class bookkeeping inlined) against its functional contract,
     for every switching point in [0,1] and both update branches"""
-    cfg = Cfg('VoronoiFPS', 'sample', with_y=with_y)
+    cfg = Cfg('VoronoiFPS', 'sample', with_y=with_y, thr=thr)      # thr: a score threshold is configured (any real value): the update must not depend on it
     def body(I):
         ctx = build_selector(I, cfg); I.cur = ctx
         N = ctx['N']; X = ctx['X']
@@ -476,7 +476,7 @@ def u_voronoi_update(with_y=False):
         I.call_func(I.find_method(ctx['cls'], '_update_post_selection'), [me, X, ctx['y'], L], {})
         for label, f in voronoi_update_spec(I, me, ctx, old, L):
             I.ob(f'post[C06]:update-{label}', f, kind='post')
-    return Unit('VoronoiFPS._update_post_selection' + ('[y]' if with_y else ''), body, functions=[VUPD, 'skmatter.sample_selection._voronoi_fps.VoronoiFPS._get_active'])
+    return Unit('VoronoiFPS._update_post_selection' + ('[y]' if with_y else '') + (f'[score threshold {thr}]' if thr else ''), body, functions=[VUPD, 'skmatter.sample_selection._voronoi_fps.VoronoiFPS._get_active'])
 
 def u_fit(cfg):
     qfit = SEL + '.GreedySelector.fit'
